@@ -714,6 +714,26 @@ def run(chk):
             st[d][k] = acc
             acc *= b[d][k]
         cases.append((b, st))
+    # solver-chosen adversaries: layouts that overlap themselves although their largest address is N-1 (where
+    # "spans exactly N addresses" and "dense" part company); up to 3 step assignments per structure, independent of the seed
+    for b in ([[3], [3]], [[4], [4]], [[3, 3]], [[2], [2], [2]], [[2, 3]], [[4], [3]], [[2, 2], [3]], [[3], [2, 2]], [[5], [2]], [[2, 4]]):
+        flat = [bb for bd in b for bb in bd]
+        sv = [z3.Int(f"s{i}") for i in range(len(flat))]
+        xs = [z3.Int(f"x{i}") for i in range(len(flat))]
+        ys = [z3.Int(f"y{i}") for i in range(len(flat))]
+        so = z3.Solver()
+        so.add(*[z3.And(v >= 1, v <= 8) for v in sv])
+        so.add(*[z3.And(x >= 0, x < bb, y >= 0, y < bb) for x, y, bb in zip(xs, ys, flat)])
+        so.add(z3.Or([x != y for x, y in zip(xs, ys)]), sum(v * x for v, x in zip(sv, xs)) == sum(v * y for v, y in zip(sv, ys)))
+        so.add(sum(v * (bb - 1) for v, bb in zip(sv, flat)) == int(np.prod(flat)) - 1)
+        for _ in range(3):
+            if str(so.check()) != "sat":
+                break
+            md = so.model()
+            vals_ = [md.eval(v, model_completion=True).as_long() for v in sv]
+            it = iter(vals_)
+            cases.append((b, [[next(it) for _ in bd] for bd in b]))
+            so.add(z3.Or([v != c for v, c in zip(sv, vals_)]))
     if only in (None, "enum"):
         chk.add_results("enumeration_views_vs_solver", pmap(case_enum, cases, chunks=2))
     # print/parse
